@@ -547,22 +547,18 @@ class _Run:
         g.draw_screen(tuple(size), canv)
         frag = HtmlGenerator.fragments[-1]
         HtmlGenerator.fragments = []
-        m = re.fullmatch(r"<pre[^>]*>(.*)</pre>", frag, re.S)
-        if not m:
+        rows_got = parse_html_rows(frag)
+        if rows_got is None:
             self.violate("C04.5", "html-not-a-pre-block", frag[:200])
             return
-        body = m.group(1)
-        lines = body.split("\n")
-        if lines and lines[-1] == "":
-            lines = lines[:-1]
         want = ["".join(c[0] for c in row) for row in exp_rows]
-        got = [html.unescape(re.sub(r"<[^>]*>", "", ln)) for ln in lines]
+        got = ["".join(ch for ch, _st in row) for row in rows_got]
         self.res.probe("html_frame_checked")
         if got != want:
-            self.violate("C04.5", "html-text-differs", f"got {got!r} want {want!r}")
+            self.violate("C04.5", "html-text-differs", f"a browser shows {got!r}, the canvas holds {want!r}")
             return
-        # at most one highlighted cursor cell: drawing the same canvas without its cursor must differ by
-        # the two extra span boundaries around one character, in the cursor row only
+        # at most one highlighted cursor cell: the same canvas drawn without its cursor differs in the style of exactly
+        # the character in the cursor cell
         if cursor is None:
             return
         import urwid  # noqa: PLC0415
@@ -570,18 +566,73 @@ class _Run:
         plain = urwid.CompositeCanvas(canv)
         plain.cursor = None
         g.draw_screen(tuple(size), plain)
-        frag2 = HtmlGenerator.fragments[-1]
+        rows_plain = parse_html_rows(HtmlGenerator.fragments[-1])
         HtmlGenerator.fragments = []
-        l1, l2 = frag.split("\n"), frag2.split("\n")
-        diff_rows = [i for i, (a, b) in enumerate(zip(l1, l2)) if a != b]
-        if diff_rows and diff_rows != [cursor[1]]:
-            self.violate("C04.5", "html-cursor-changes-other-rows", f"rows {diff_rows} cursor {cursor}")
-        elif diff_rows:
-            extra = l1[cursor[1]].count("<span") - l2[cursor[1]].count("<span")
-            if not 0 <= extra <= 2:
-                self.violate("C04.5", "html-more-than-one-cursor-cell", f"{extra} extra spans in row {cursor[1]}")
-            else:
-                self.res.probe("html_cursor_checked")
+        if rows_plain is None or ["".join(ch for ch, _st in row) for row in rows_plain] != want:
+            self.violate("C04.5", "html-text-differs", "the same canvas without its cursor")
+            return
+        differs = []
+        for y, (a, b) in enumerate(zip(rows_got, rows_plain)):
+            col = 0
+            for (ch, st1), (_ch2, st2) in zip(a, b):
+                w = max(1, char_width(ch)) if char_width(ch) else 0
+                if st1 != st2:
+                    differs.append((col, y, ch))
+                col += w
+        if len(differs) > 1:
+            self.violate("C04.5", "html-more-than-one-cursor-cell", f"characters highlighted: {differs!r}, cursor {cursor}")
+        elif differs and (differs[0][1] != cursor[1] or not differs[0][0] <= cursor[0] < differs[0][0] + max(1, char_width(differs[0][2]))):
+            self.violate("C04.5", "html-cursor-highlights-another-cell", f"highlighted {differs[0]!r}, cursor {cursor}")
+        else:
+            self.res.probe("html_cursor_checked")
+
+
+def parse_html_rows(frag: str):
+    """The <pre> fragment as a browser reads it: per row a list of (character, style of the enclosing span).  Character
+    references are resolved per text node, as an HTML parser does - a reference cut in two by a tag is not one."""
+    from html.parser import HTMLParser  # noqa: PLC0415
+
+    class P_(HTMLParser):
+        def __init__(self):
+            super().__init__(convert_charrefs=True)
+            self.rows = [[]]
+            self.style = [None]
+            self.in_pre = 0
+            self.saw_pre = False
+
+        def handle_starttag(self, tag, attrs):
+            if tag == "pre":
+                self.in_pre += 1
+                self.saw_pre = True
+            elif tag == "span":
+                self.style.append(dict(attrs).get("style"))
+
+        def handle_endtag(self, tag):
+            if tag == "pre":
+                self.in_pre -= 1
+            elif tag == "span" and len(self.style) > 1:
+                self.style.pop()
+
+        def handle_data(self, data):
+            if not self.in_pre:
+                return
+            for ch in data:
+                if ch == "\n":
+                    self.rows.append([])
+                else:
+                    self.rows[-1].append((ch, self.style[-1]))
+
+    p_ = P_()
+    p_.feed(frag)
+    p_.close()
+    if not p_.saw_pre:
+        return None
+    rows = p_.rows
+    if rows and rows[0] == [] and frag.lstrip().startswith("<pre") and "\n" == frag[frag.index(">") + 1 : frag.index(">") + 2]:
+        rows = rows[1:]  # a newline right after <pre> is ignored by browsers
+    if rows and rows[-1] == []:
+        rows = rows[:-1]
+    return rows
 
 
 class DisplayEngine(Engine):
